@@ -344,7 +344,17 @@ func maintErrOK(err error) bool {
 
 func h4History(h []Tx) string { return coqHistory(h) }
 
+// a store operation that fails in the middle of a run (reopen, index re-initialisation, snapshot,
+// commit) is itself a finding: the run ends there
 func runHistory(r *sink, rs runSpec, bucketPrefix string) error {
+	err := runHistory1(r, rs, bucketPrefix)
+	if err != nil {
+		r.Finding(fmt.Sprintf("store operation failed during the run: %v [replay seed=%d det=%v]", err, rs.seed, rs.det))
+	}
+	return nil
+}
+
+func runHistory1(r *sink, rs runSpec, bucketPrefix string) error {
 	rng := rand.New(rand.NewSource(rs.seed))
 	g := &gen{rng: rng}
 	g.sc = randStoreCfg(rng, rs.det)
